@@ -34,20 +34,27 @@
      (simw) omega dt = the half-angle element h = (m, v)  (exp(omega dt) IS the quaternion h,
             theta = 2 atan2(|v|, m)): the exact flow is q1 = q h.  The code takes ONE classical
             RK4 step of r' = B(r) phi/dt, phi = omega dt, |phi| = theta.  Bound used by the
-            harness on every rotation-matrix entry:   |R(r1) - R(q h)| <= 3 theta^5 + 1e-9,
-            for theta <= 0.26 rad.  Justification (s = t/dt in [0,1], f(r) = B(r) phi):
-            B(r) = (1+|r|^2)/4 * (orthogonal matrix)  =>  |f| <= 0.56 theta on |r| <= 1.1 (the
-            stages may leave the unit ball by < theta/2 <= 0.13);  |Df| <= (2 + 6|r|)/4 theta
-            <= 2.2 theta;  |D^2 f| <= 1.5 theta;  D^3 f = 0.  The local error of the classical
-            4-stage method is  sum over the 9 rooted trees of order 5 of  e(tau)/sigma(tau) *
-            F(tau)  + O(6) with |e(tau)|/sigma(tau) <= 1/120 (attained by the tall tree) and each
-            elementary differential bounded by (2.2 theta)^4 (0.56 theta) <= 13.2 theta^5:
-            |r1 - r(1)| <= 9/120 * 13.2 theta^5 < theta^5 (the O(theta^6) tail, with the same
-            constants and theta <= 0.26, is below a quarter of that);  dR/dr has norm
-            4/(1+|r|^2) <= 4 on rotation-matrix entries ... <= 2.4 (|r| near 1) -- 3 theta^5
-            covers both.  Measured on the lattice: <= 1.5e-3 theta^5 (recorded in the evidence),
-            so rounding noise and the bound are far apart, while a method of lower order (error
+            harness on every rotation-matrix entry, for |r0| <= 1 and theta <= 0.26 rad:
+                        |R(r1) - R(q h)|  <=  3 theta^5 + 1e-9 .
+            Justification (s = t/dt in [0,1], f(r) = B(r) phi, B(r) = (1+|r|^2)/4 * orthogonal):
+            the stages leave the unit ball by at most 0.58 theta <= 0.15, and on |r| <= 1.15
+              |f| <= 0.58 theta,  |Df| <= (1+3|r|)/2 theta <= 2.23 theta,  |D^2 f| <= 1.5 theta,
+              D^3 f = 0.
+            The local error of an explicit 4-stage order-4 method is the sum over the 9 rooted
+            trees of order 5 of c(tau) F(tau) + O(6), |c(tau)| <= 1/120 (attained by the tall
+            tree, which no 4-stage method matches).  Trees containing D^3 f or D^4 f vanish; the
+            tall tree is bounded by 2.23^4 * 0.58 = 14.3, the four trees with one D^2 f by
+            1.5 * 0.58^2 * 2.23^2 = 2.5 each, the tree with two D^2 f by 0.45 (all times theta^5):
+              |r1 - r(1)| <= 24.8/120 theta^5 = 0.21 theta^5   (leading term).
+            Higher orders gain at most a factor |Df| <= 2.23 theta <= 0.58 each: geometric tail
+            factor 1/(1 - 0.58) = 2.4.  A perturbation dr of an MRP turns R by |dphi| =
+            4 |dr|/(1+|r|^2) <= 4 |dr|, which bounds every entry of dR:  0.21 * 2.4 * 4 = 2.0 < 3.
+            Measured on the lattice: <= 0.014 theta^5 (recorded in the evidence), so rounding
+            noise (1e-14) and the bound are far apart, while a method of lower order (error
             c theta^4 or c theta^3) exceeds the bound at the small-theta end of the lattice.
+            Inputs OUTSIDE the unit ball (cell "shadow_in", |r0| up to 3: never produced by the
+            node itself, simulate always returns |r| <= 1) are outside this derivation: for them
+            the flow clause is informational (SPEC-DRIFT) and only norm <= 1 / bias are asserted.
      (simn) k steps with the same h: q h^k, bound k times the above (an error in R is carried
             along by exact rotations: no amplification at first order; 1.01 covers the rest).
      in all cases the returned MRP has norm <= 1 (shadow switch when the step leaves the unit
